@@ -20,10 +20,13 @@
       cosmos-sdk (fork) x/gov               msg server SubmitProposal (keeper SubmitProposal, hook,
                                             then AddDeposit of the initial deposit), AddDeposit
                                             (transfer, activate voting, hook), AddVote, CancelProposal
-                                            (refund minus the cancel ratio, delete; NO hook), EndBlocker
-                                            (inactive queue: delete + refund + FailedMinDeposit hook;
-                                            active queue: tally, refund, execute messages in a cache
-                                            context, passed/failed/rejected, VotingPeriodEnded hook)
+                                            (refund minus the cancel ratio, delete; NO hook), Tally,
+                                            EndBlocker (inactive queue: delete + refund or burn +
+                                            FailedMinDeposit hook; active queue: tally, refund or burn,
+                                            execute messages in a cache context, passed / failed /
+                                            rejected, or conversion of an expedited proposal that did
+                                            not pass; VotingPeriodEnded hook in a cache context whose
+                                            error is ignored)
       cosmos-sdk (fork) x/bank              SendCoins, InputOutputCoinsProv (one-to-many,
                                             many-to-one), DelegateCoins, SendCoinsFromAccountToModule:
                                             each subtracts from the source and applies the send
